@@ -142,8 +142,7 @@ def c04(tier):
                 steps += [op(0, "ZRANGE", "z", s, t), op(0, "ZREVRANGE", "z", s, t)]
         steps += [op(0, "ZRANGE", "z", 0, -1, "WITHSCORES"), op(0, "ZREVRANGE", "z", 0, -1, "WITHSCORES"), op(0, "ZCARD", "z")]
         for sc, m in z + [("9", "nosuch")]:
-            if m:
-                steps += [op(0, "ZRANK", "z", m), op(0, "ZREVRANK", "z", m)]
+            steps += [op(0, "ZRANK", "z", m), op(0, "ZREVRANK", "z", m)]
             steps += [op(0, "ZSCORE", "z", m), op(0, "ZEXISTS", "z", m)]
         for lo in bounds:
             for hi in bounds:
@@ -169,6 +168,14 @@ def c04(tier):
                     steps += add + [op(0, "ZREMRANGEBYSCORE", "z", lo, hi), op(0, "ZRANGE", "z", 0, -1, "WITHSCORES")]
                     steps += add + [op(0, "ZREMRANGEBYSCORE", "z", "(" + lo if not lo.endswith("inf") else lo, hi), op(0, "ZRANGE", "z", 0, -1)]
             cases.append(("c04-remove-%d" % zi, "mem", steps))
+    # a set large enough for several skiplist levels, with the empty member at either end and in the middle of a tie
+    for ci, (esc, others) in enumerate((("0", 1), ("100", 1), ("20", 20))):
+        steps = [op(0, "ZADD", "z", str(others if others > 1 else i + 1), "m%02d" % i) for i in range(48)]
+        steps += [op(0, "ZADD", "z", esc, "")]
+        steps += [op(0, "ZRANK", "z", ""), op(0, "ZREVRANK", "z", ""), op(0, "ZRANK", "z", "", "WITHSCORES"), op(0, "ZSCORE", "z", ""),
+                  op(0, "ZRANK", "z", "m00"), op(0, "ZREVRANK", "z", "m47"), op(0, "ZRANK", "z", "m24"), op(0, "ZCARD", "z"),
+                  op(0, "ZREM", "z", ""), op(0, "ZRANK", "z", ""), op(0, "ZRANK", "z", "m00"), op(0, "ZCARD", "z")]
+        cases.append(("c04-levels-%d" % ci, "mem", steps))
     # updates: every order of three ZADD/ZINCRBY/ZREM on two members with ties
     acts = [["ZADD", "z", "1", "a"], ["ZADD", "z", "1", "b"], ["ZADD", "z", "2", "a"], ["ZINCRBY", "z", "1", "a"], ["ZINCRBY", "z", "-1", "b"],
             ["ZREM", "z", "a"], ["ZADD", "z", "XX", "5", "a"], ["ZADD", "z", "NX", "5", "c"], ["ZADD", "z", "GT", "0", "a"], ["ZADD", "z", "LT", "0", "b"]]
@@ -238,7 +245,7 @@ def c01(tier):
                 pre.append(op(0, *mk[t1]))
             if t2:
                 pre.append(op(0, *[w.replace("k", "j") if w == "k" else w for w in mk[t2]]))
-            for cmd in (["RENAME", "k", "j"], ["RENAMENX", "k", "j"], ["DEL", "k", "j"], ["EXISTS", "k", "j", "k"], ["SET", "k", "new"], ["GET", "k"],
+            for cmd in (["RENAME", "k", "j"], ["RENAMENX", "k", "j"], ["RENAME", "k", "k"], ["RENAMENX", "k", "k"], ["DEL", "k", "j"], ["DEL", "k", "k"], ["EXISTS", "k", "j", "k"], ["SET", "k", "new"], ["GET", "k"],
                         ["APPEND", "k", "x"], ["STRLEN", "k"], ["INCR", "k"], ["GETRANGE", "k", "0", "1"], ["MSET", "k", "1", "j", "2"]):
                 steps += pre + [op(0, *cmd), op(0, "TYPE", "k"), op(0, "TYPE", "j"), op(0, "KEYS", "*"), op(0, "DBSIZE")]
     cases.append(("c01-keyspace", "mem", steps))
